@@ -51,6 +51,12 @@ func new(input string) *Lexer {
 
 // ReadChar advances the lexer to the next character in the input.
 func (l *Lexer) ReadChar() {
+	// Already past the end of the input: stay there, so that the
+	// end-of-input position does not drift with repeated reads
+	if l.readPosition > len(l.input) {
+		return
+	}
+
 	// If the previous character was a newline, reset column
 	if l.CurrentChar == '\n' {
 		l.Line++
